@@ -227,6 +227,7 @@ func init() {
 	Properties["C09"] = &PropertySpec{
 		Modules: st,
 		Rules: []Rule{
+			R68(),
 			Only(R59(), `^b/`),
 			Only(R58(), `^c/`, `^e/`),
 			R56(),
@@ -256,6 +257,7 @@ func init() {
 	Properties["C11"] = &PropertySpec{
 		Modules: st,
 		Rules: []Rule{
+			R67(),
 			Only(R56(), `^b/write-time-field`),
 			Only(R58(), `^c/`, `^e/`),
 			R49(),
